@@ -163,3 +163,89 @@ def _domain_fix(n):
 
 
 DOMAIN[GP + 'GraphProcessor.fix_des_var'] = _domain_fix
+
+CLASSES['GraphProcessor'].update({'_sel_choice_idx_map': 'List[Int]', '_hierarchy_analyzer': 'Ref[HierarchyAnalyzerBase]'})
+
+CONTRACTS[GP + 'GraphProcessor._update_comb_fixed_mask'] = dict(
+    properties=['C15', 'C04'],
+    types={'self': 'Ref[GraphProcessor]'},
+    locals={'fixed_choices': 'Dict[Int,Int]'},
+    requires={'each-choice-has-at-most-one-variable': 'forall(a, 0, len(self._sel_choice_idx_map), forall(b, 0, len(self._sel_choice_idx_map), implies(a != b, self._sel_choice_idx_map[a] != self._sel_choice_idx_map[b])))'},
+    calls={
+        # the statement of C15 for this function is the *precondition* under which the analyzer is asked for the mask:
+        # the fixed choices are keyed by selection-choice index and carry the fixed option index
+        'self._hierarchy_analyzer.get_available_combinations_mask': dict(
+            params=['fixed_comb_idx'], types={'fixed_comb_idx': 'Dict[Int,Int]'}, returns='Ref', modifies=[],
+            requires={
+                'every-fixed-selection-variable-passed-by-choice-index':
+                    'forall(v, 0, len(self._sel_choice_idx_map), implies(v in self._fixed_values, self._sel_choice_idx_map[v] in fixed_comb_idx and fixed_comb_idx[self._sel_choice_idx_map[v]] == int(self._fixed_values[v])))',
+                'only-fixed-selection-variables-passed':
+                    "forall('c:Int', implies(c in fixed_comb_idx, exists(v, 0, len(self._sel_choice_idx_map), self._sel_choice_idx_map[v] == c and v in self._fixed_values)))",
+            }),
+    },
+    loops={'for i_dv, i_dec in enumerate(self._sel_choice_idx_map)': dict(index='k', invariant={
+        'passed-so-far': 'forall(v, 0, k, implies(v in self._fixed_values, self._sel_choice_idx_map[v] in fixed_choices and fixed_choices[self._sel_choice_idx_map[v]] == int(self._fixed_values[v])))',
+        'only-fixed-so-far': "forall('c:Int', implies(c in fixed_choices, exists(v, 0, k, self._sel_choice_idx_map[v] == c and v in self._fixed_values)))",
+    })},
+    post_locals=['fixed_choices'],
+    ensures={
+        'fixed-selection-variables-keyed-by-choice-index': ('property', 'forall(v, 0, len(self._sel_choice_idx_map), implies(v in self._fixed_values, self._sel_choice_idx_map[v] in final_fixed_choices and final_fixed_choices[self._sel_choice_idx_map[v]] == int(self._fixed_values[v])))'),
+        'nothing-else-restricted': ('property', "forall('c:Int', implies(c in final_fixed_choices, exists(v, 0, len(self._sel_choice_idx_map), self._sel_choice_idx_map[v] == c and v in self._fixed_values)))"),
+    },
+    modifies=['self._comb_fixed_mask'],
+)
+
+
+def _domain_update_mask(n):
+    import random, os
+    from adsg_core.optimization.graph_processor import GraphProcessor
+    rng = random.Random(7200 + int(os.environ.get('VERIF_SEED', '0') or 0))
+    for _ in range(n):
+        n_choices = rng.randint(1, 5)
+        # some choices are forced (no variable): the map from variable position to choice index skips them
+        idx_map = sorted(rng.sample(range(n_choices), rng.randint(1, n_choices)))
+        n_extra = rng.randint(0, 2)
+        gp = _GP()
+        gp._sel_choice_idx_map = idx_map
+        gp._fixed_values = {i: rng.randint(0, 3) for i in range(len(idx_map) + n_extra) if rng.random() < 0.5}
+        captured = {}
+
+        class An:
+            def get_available_combinations_mask(self, fixed):
+                captured.clear()
+                captured.update(fixed)
+                return None
+        gp._hierarchy_analyzer = An()
+        yield ({'self': gp, 'final_fixed_choices': captured},
+               (lambda gp=gp: GraphProcessor._update_comb_fixed_mask(gp)), {'Int': list(range(-1, 7))},
+               f'_update_comb_fixed_mask(idx_map={idx_map}, fixed={gp._fixed_values})')
+
+
+DOMAIN[GP + 'GraphProcessor._update_comb_fixed_mask'] = _domain_update_mask
+
+# ---- segment of GraphProcessor.get_graph: used values of the selection-choice variables (C07, C03) -----------------
+# Mechanical extraction: statements from `opt_dec_used_values: ... =` up to (not including) `opt_dec_existence_key = ...`;
+# everything before is abstracted by the declared live variables (arbitrary values of the stated types).
+CONTRACTS[GP + 'GraphProcessor.get_graph@selection-used-values'] = dict(
+    properties=['C07', 'C03'],
+    types={'self': 'Ref[GraphProcessor]', 'des_var_values': 'List[Real]', 'create': 'Bool'},
+    start_at='opt_dec_used_values:',
+    stop_before='opt_dec_existence_key',
+    live={'sel_choice_opt_idx': 'List[Int]', 'sel_choice_is_active': 'List[Bool]'},
+    locals={'opt_dec_used_values': 'List[Optional[Int]]'},
+    post_locals=['opt_dec_used_values'],
+    requires={'map-into-choices': 'forall(v, 0, len(self._sel_choice_idx_map), 0 <= self._sel_choice_idx_map[v] and self._sel_choice_idx_map[v] < len(sel_choice_opt_idx))',
+              'one-flag-per-choice': 'len(sel_choice_is_active) == len(sel_choice_opt_idx)'},
+    loops={'for i_dv, i_dec in enumerate(self._sel_choice_idx_map)': dict(index='k', invariant={
+        'len': 'len(opt_dec_used_values) == len(self._sel_choice_idx_map)',
+        'done': 'forall(v, 0, k, opt_dec_used_values[v] == ite(sel_choice_is_active[self._sel_choice_idx_map[v]], sel_choice_opt_idx[self._sel_choice_idx_map[v]], None))',
+        'todo': 'forall(v, k, len(self._sel_choice_idx_map), opt_dec_used_values[v] == sel_choice_opt_idx[self._sel_choice_idx_map[v]])',
+    })},
+    ensures={
+        'one-used-value-per-selection-variable': ('property', 'len(final_opt_dec_used_values) == len(self._sel_choice_idx_map)'),
+        'inactive-choice-variable-unused': ('property', 'forall(v, 0, len(self._sel_choice_idx_map), implies(not sel_choice_is_active[self._sel_choice_idx_map[v]], final_opt_dec_used_values[v] is None))'),
+        'active-choice-variable-reports-taken-option': ('property', 'forall(v, 0, len(self._sel_choice_idx_map), implies(sel_choice_is_active[self._sel_choice_idx_map[v]], final_opt_dec_used_values[v] == sel_choice_opt_idx[self._sel_choice_idx_map[v]]))'),
+    },
+    modifies=[],
+    no_frame=True,
+)
